@@ -164,6 +164,11 @@ func enumConfigs() []keyCfg {
 	} {
 		add(keyCfg{Requested: p[0], X509Src: p[2] + "-of-" + p[1], X509Class: clMismatch, X509Kind: "cert-file", X509File: fx(p[1] + "." + p[2] + ".crt")})
 	}
+	// self-signed signing certificate with further certificates appended: the leaf is the self-signed one
+	add(keyCfg{Requested: "rsaA", X509Src: "selfsigned-leaf+appended-ca", X509Class: clConsistent, X509File: gen("rsaA.selfsigned+inter.crt"), WantLeaf: "rsaA-selfsigned"})
+	add(keyCfg{Requested: "rsaA", X509Src: "selfsigned-leaf+appended-ca+root", X509Class: clConsistent, X509File: gen("rsaA.selfsigned+inter+root.crt"), WantLeaf: "rsaA-selfsigned"})
+	// same RSA modulus, other public exponent: another key
+	add(keyCfg{Requested: "rsaA", X509Src: "leaf-with-same-modulus-other-exponent", X509Class: clMismatch, X509Kind: "cert-file", X509File: gen("rsaA.same-modulus-exponent-3.crt")})
 	// same curve, same X coordinate, other Y (the negated point)
 	add(keyCfg{Requested: "p256A", Signer: "p256A", X509Src: "leaf-of-p256A-for-negated-point-key", X509Class: clMismatch, X509Kind: "cert-file", KeyFile: gen("p256A-negated.key"), X509File: fx("p256A.leaf.crt")})
 	add(keyCfg{Requested: "rsaA", X509Src: "pkcs12-key-rsaA-leaf-p256A", X509Class: clMismatch, X509Kind: "pkcs12", KeyFile: gen("key-rsaA-leaf-p256A.p12"), IsP12: true})
